@@ -103,7 +103,7 @@ def _gen_body(run, items, fin_raises):
             yield _chunk(k)
     finally:
         run.gen_finally += 1
-        if fin_raises:
+        if fin_raises and _cur[0] is run:      # (not when the garbage collector closes it after the run)
             raise ProbeError('%s-finally' % MARK)
 
 
@@ -182,7 +182,7 @@ class FileNoClose(_FileBase):
 class FileClose(_FileBase):
     def close(self):
         self.run.file_close += 1
-        if self.close_raises:
+        if self.close_raises and _cur[0] is self.run:      # (file_generator.__del__ may run after the run)
             raise ProbeError('%s-fclose' % MARK)
 
 
@@ -236,6 +236,22 @@ def _tamper_hook():
         resp.header_list = list(resp.header_list) + [TAMPER_HDR[hd]]
 
 
+def _ep_gen(text):
+    yield text
+    yield text
+
+
+EP_CALLABLES = {
+    'str': lambda **kw: 'VP-EP status=%(status)s tb=[%(traceback)s]' % kw,
+    'bytes': lambda **kw: ('VP-EP status=%(status)s tb=[%(traceback)s]' % kw).encode('utf-8'),
+    'iter': lambda **kw: _ep_gen('VP-EP tb=[%(traceback)s]' % kw),
+    'iterbytes': lambda **kw: _ep_gen(('VP-EP tb=[%(traceback)s]' % kw).encode('utf-8')),
+    'iterint': lambda **kw: iter([1, 2]),
+    'int': lambda **kw: 12345,
+    'none': lambda **kw: None,
+}
+
+
 def _released_hook():
     run = _cur[0]
     if run is not None:
@@ -266,6 +282,7 @@ class Root(object):
                 cherrypy.serving.response.status = plan['status']
             if plan['cl']:
                 cherrypy.serving.response.headers['Content-Length'] = '14'
+                cherrypy.serving.response.headers['Content-Range'] = 'bytes 0-13/14'
             return make_body(run, plan['body'])
         rules = plan['pages'].get(req.path_info)
         if rules is None:
@@ -285,7 +302,7 @@ _apps = {}
 def build_app(plan):
     pc._configure()
     if plan['k'] == 'b':
-        key = ('b', plan['tb'], plan['stream'], tuple(plan['tools']))
+        key = ('b', plan['tb'], plan['stream'], tuple(plan['tools']), plan.get('ep'))
     else:
         key = ('r', plan['tb'])
     app = _apps.get(key)
@@ -298,6 +315,8 @@ def build_app(plan):
         sec['hooks.on_end_resource.0'] = _tamper_hook
         if plan['stream']:
             sec['response.stream'] = True
+        if plan.get('ep'):
+            sec['error_page.default'] = EP_CALLABLES[plan['ep']]
         for t in plan['tools']:
             if t == 'encode':
                 sec['tools.encode.on'] = True
@@ -440,7 +459,7 @@ def tok(s):
 def model_comparable(plan):
     """Plans the Lean model covers (the rest is judged by the oracle only)."""
     if plan['k'] == 'b':
-        return (not plan['tools'] and (plan['status'] is None or isinstance(plan['status'], int))
+        return (not plan['tools'] and not plan.get('ep') and (plan['status'] is None or isinstance(plan['status'], int))
                 and plan['tamper'][1] != 'strpair')
     return True
 
@@ -450,7 +469,8 @@ def plan_line(plan):
         b = plan['body']
         return ' '.join(['B', plan['meth'], str(plan['tb']), str(plan['stream']), str(plan['cl']), opt(plan['status']),
                          b['shape'], tok(b['items']), str(b['end']), b['close'], plan['tamper'][0], plan['tamper'][1],
-                         opt(plan['reads']), str(plan['closes'])])
+                         opt(plan['reads']), str(plan['closes'])]
+                        + (['ep=%s' % plan['ep']] if plan.get('ep') else []) + (['tools=%s' % '+'.join(plan['tools'])] if plan['tools'] else []))
     out = ['R', plan['meth'], str(plan['tb']), plan['start'][0], tok(plan['start'][1]), opt(plan['reads']),
            str(plan['closes'])]
     for path in sorted(plan['pages']):
@@ -462,35 +482,34 @@ def plan_line(plan):
     return ' '.join(out)
 
 
-def flags_real(obs):
+def other_bytes(obs):
+    """Did the server receive bytes that are not page chunks (an error page, the trapper's bare body)?  Judged by
+    length, not by wording."""
     text = b''.join(c for c in obs['chunks'] if isinstance(c, bytes))
-    fl = []
-    if b'Unrecoverable error in the server.' in text:
-        fl.append('bare')
-    if b'Powered by <a href="http://www.cherrypy.dev">' in text:
-        fl.append('ep')
-    return fl
+    return 1 if len(text) > text.count(PAGE_CHUNK) * len(PAGE_CHUNK) else 0
 
 
 def canon_real(plan, obs):
-    """The observables compared with the model (chunking and wording are not among them)."""
-    starts = ','.join('%s.%d' % (s[0][:3] if isinstance(s[0], str) else '???', 1 if s[2] else 0) for s in obs['starts'])
+    """The observables compared with the model.  Not among them: chunking, wording of any message or page, how often
+    the probe file's close() runs (file_generator.__del__ adds calls at garbage-collection time), and how far a body
+    iterator was consumed when the request ended in an error before the response started."""
+    codes = [s[0][:3] if isinstance(s[0], str) else '???' for s in obs['starts']]
+    starts = ','.join('%s.%d' % (c, 1 if s[2] else 0) for c, s in zip(codes, obs['starts']))
     inner = obs['inner']
     out = {'S': starts or '-', 'X': '1' if obs['escaped'] else '0', 'R': str(inner['released'])}
     full = plan['reads'] is None
+    text = b''.join(c for c in obs['chunks'] if isinstance(c, bytes))
     if plan['k'] == 'b':
         out['K'] = str(inner['close'])
         if full:
-            text = b''.join(c for c in obs['chunks'] if isinstance(c, bytes))
-            out['D'] = 'p%d.s%d.i%d.%s' % (text.count(PAGE_CHUNK), sum(1 for c in obs['chunks'] if isinstance(c, str)),
-                                           sum(1 for c in obs['chunks'] if not isinstance(c, (str, bytes))),
-                                           '+'.join(flags_real(obs)) or 'none')
-            out['N'] = str(inner['next'] + inner['fread'])
+            out['D'] = 'p%d.s%d.i%d.%d' % (text.count(PAGE_CHUNK), sum(1 for c in obs['chunks'] if isinstance(c, str)),
+                                          sum(1 for c in obs['chunks'] if not isinstance(c, (str, bytes))), other_bytes(obs))
+            if codes and codes[0][:1] in '123':
+                out['N'] = str(inner['next'] + inner['fread'])
     else:
         out['U'] = ','.join('%s?%s' % u for u in obs['urls']) or '-'
         if full:
-            text = b''.join(c for c in obs['chunks'] if isinstance(c, bytes))
-            out['D'] = 'p%d.%s' % (text.count(PAGE_CHUNK), '+'.join(flags_real(obs)) or 'none')
+            out['D'] = 'p%d.%d' % (text.count(PAGE_CHUNK), other_bytes(obs))
     return out
 
 
@@ -502,7 +521,9 @@ def canon_model(plan, m):
     full = plan['reads'] is None
     keys = ['S', 'X', 'R'] + (['K'] if plan['k'] == 'b' else ['U'])
     if full:
-        keys += ['D'] + (['N'] if plan['k'] == 'b' else [])
+        keys += ['D']
+        if plan['k'] == 'b' and m.get('S', '-')[:1] in '123':
+            keys += ['N']
     return {k: m.get(k) for k in keys}
 
 
@@ -515,10 +536,13 @@ CONSUME = [(None, 1), (None, 2), (None, 0), (0, 1), (0, 2), (1, 1), (1, 2), (2, 
 
 
 def b_plan(shape='bytes', items='', end=0, close='absent', meth='get', tb=0, stream=0, tools=(), cl=0, status=None,
-           tamper=('keep', 'none'), reads=None, closes=1):
-    return {'k': 'b', 'meth': meth, 'tb': tb, 'stream': stream, 'tools': list(tools), 'cl': cl, 'status': status,
-            'body': {'shape': shape, 'items': items, 'end': end, 'close': close}, 'tamper': list(tamper),
-            'reads': reads, 'closes': closes}
+           tamper=('keep', 'none'), reads=None, closes=1, ep=None):
+    pl = {'k': 'b', 'meth': meth, 'tb': tb, 'stream': stream, 'tools': list(tools), 'cl': cl, 'status': status,
+          'body': {'shape': shape, 'items': items, 'end': end, 'close': close}, 'tamper': list(tamper),
+          'reads': reads, 'closes': closes}
+    if ep:
+        pl['ep'] = ep       # an error_page.default callable returning str / bytes / an iterator / something else
+    return pl
 
 
 def body_specs(quick):
@@ -575,6 +599,13 @@ def grid_b_plans(quick):
                 for stream in (0, 1):
                     for tb in (0, 1):
                         plans.append(b_plan(sh, items, 0, close, tamper=(st, hd), stream=stream, tb=tb))
+    # failures answered through an error_page callable of every return type
+    for ep in sorted(EP_CALLABLES):
+        for sh, items, st in (('str', '', None), ('bytes', '', 99), ('gen', 'bx', None), ('list', 'bs', None)):
+            for stream in (0, 1):
+                for tb in (0, 1):
+                    for reads, closes in ((None, 1), (1, 2)):
+                        plans.append(b_plan(sh, items, 0, 'ok', status=st, stream=stream, tb=tb, ep=ep, reads=reads, closes=closes))
     for status in (99, 600, 201, 304, 100, '299 caf€', '200 a\r\nX-Injected: 1', 'banana', '', 0, '1000 x', '200'):
         for sh, items in (('bytes', ''), ('gen', 'bb'), ('gen', 'bx')):
             for stream in (0, 1):
@@ -602,7 +633,8 @@ def gen_b_plan(rng):
         tamper = (rng.choice(['keep', 'str', 'none', 'int']),
                   rng.choice(['none', 'bytes', 'strkey', 'strval', 'unival', 'strpair', 'triple', 'nonpair', 'intval', 'nolist']))
     tools = rng.choices([(), ('encode',), ('gzip',), ('encode', 'gzip'), ('etags',)], weights=[60, 15, 10, 8, 7])[0]
-    return b_plan(sh, items, rng.choice([0, 0, 1]) if sh in ('iter', 'iterable', 'file') else 0, close,
+    ep = rng.choice(sorted(EP_CALLABLES)) if rng.random() < 0.08 else None
+    return b_plan(sh, items, rng.choice([0, 0, 1]) if sh in ('iter', 'iterable', 'file') else 0, close, ep=ep,
                   meth=rng.choices(['get', 'head'], weights=[85, 15])[0], tb=rng.choice([0, 1]),
                   stream=rng.choice([0, 1, 1]), tools=tools, cl=1 if rng.random() < 0.15 else 0,
                   status=rng.choices([None, 201, 204, 304, 99], weights=[80, 5, 6, 5, 4])[0], tamper=tamper,
@@ -706,6 +738,10 @@ def shrink(plan, still_fails):
     for _ in range(4):
         changed = False
         if cur['k'] == 'b':
+            if cur.get('ep'):
+                cand = copy.deepcopy(cur)
+                del cand['ep']
+                changed |= attempt(cand)
             for key, dflt in (('tools', []), ('cl', 0), ('status', None), ('tamper', ['keep', 'none']), ('meth', 'get'),
                               ('closes', 1), ('reads', None), ('stream', 0)):
                 if cur[key] != dflt:
